@@ -454,6 +454,76 @@ def _srcname(row, c):
     return (" ^ ".join(xs) if xs else "0") + (" ^ 1" if c else "")
 
 
+def check_bitconv(res, facts, tier):
+    """from_bits_le / from_bits_be build the integer whose bit i is bits[i] (resp. bits[len-1-i]) for every bit string
+    of length <= 64N (longer inputs: the surplus is ignored): one abstract run per (N, length) with every input bit
+    symbolic"""
+    from arklib import bvinterp as BI
+    rule = res.rule("R-BITCONV", "from_bits_le / from_bits_be place input bit i at integer bit i (resp. len-1-i) for all bit strings [GF(2)-affine abstract interpretation]", 2)
+    BIG = "ark_ff::biginteger::BigInt"
+    fns = {f.name: f for f in facts.fns(unit="ws", crate="ark_ff") if f.kind != "Closure" and f.self_head == BIG and f.name in ("from_bits_le", "from_bits_be") and (f.trait_impl or "").endswith("BigInteger")}
+    ns = (1, 2, 3) if tier == "thorough" else (1, 2)
+    for name in ("from_bits_le", "from_bits_be"):
+        f = fns.get(name)
+        key = "ark_ff|BigInt::%s" % name
+        if f is None:
+            rule.bad(key, "anchor missing")
+            continue
+        failed = None
+        cases = 0
+        for n in ns:
+            lens = list(range(0, 64 * n + 3)) if tier == "thorough" else sorted(set(list(range(0, 4)) + [31, 63, 64, 65, 64 * n - 1, 64 * n, 64 * n + 1, 64 * n + 2, 100 if n > 1 else 40]))
+            for ln in lens:
+                # input bit k is the symbolic boolean with global index k
+                bits = BI.Slice([BI.BV([1 << k] + [0] * 63) for k in range(ln)])
+
+                def model(nm, argv, t, n=n):
+                    if nm == "zero" and not argv:
+                        return BI.Struct({0: BI.Slice([0] * n)})
+                    if nm == "from_bits_le" and len(argv) == 1:
+                        g = fns.get("from_bits_le")
+                        if g is None:
+                            return NotImplemented
+                        v2, e2 = BI.run(g, {1: argv[0]}, params={"N": n}, call_model=model, max_steps=200000)
+                        return v2.get(0)
+                    return NotImplemented
+                try:
+                    vals, end = BI.run(f, {1: BI.Ref(bits)}, params={"N": n}, call_model=model, max_steps=200000)
+                except BI.Stop as e:
+                    failed = ("undecided", "N = %d, %d bits: %s" % (n, ln, e))
+                    break
+                cases += 1
+                out = vals.get(0)
+                limbs = out.fields[0].items if isinstance(out, BI.Struct) else None
+                if limbs is None or len(limbs) != n:
+                    failed = ("undecided", "N = %d, %d bits: result is not a BigInt" % (n, ln))
+                    break
+                for i in range(n):
+                    v = limbs[i]
+                    if isinstance(v, int):
+                        v = BI.BV([0] * 64, v)
+                    for j in range(64):
+                        pos = 64 * i + j
+                        src = pos if name == "from_bits_le" else ln - 1 - pos
+                        want = (1 << src) if (0 <= src < ln and pos < ln) else 0
+                        row, c = v.bit(j)
+                        if row != want or c:
+                            failed = ("violation", "N = %d, %d input bits: integer bit %d is %s, expected %s" % (n, ln, pos, _srcname(row, c).replace("bit", "input bit"), ("input bit %d" % src) if want else "0"))
+                            break
+                    if failed:
+                        break
+                if failed:
+                    break
+            if failed:
+                break
+        if failed and failed[0] == "violation":
+            rule.bad(key, failed[1], f.loc)
+        elif failed:
+            rule.undecided(key, "abstract interpretation stopped (%s)" % failed[1], f.loc)
+        else:
+            rule.ok(key, "bit i of the result is input bit %s for every bit string; %d (N, length) cases" % ("i" if name.endswith("le") else "len-1-i", cases), f.loc)
+
+
 def run(ctx, res):
     facts = ctx.facts(["ws"])
     res.analysed = facts.stats()
@@ -463,6 +533,7 @@ def run(ctx, res):
     check_endian(res, facts)
     check_recode(res, facts)
     check_shifts(res, facts, ctx.tier)
+    check_bitconv(res, facts, ctx.tier)
     return {
         "level": "other",
         "explanation": "Word-level proof obligations for the six limb primitives (polynomial identity modulo the decomposition of each u128 intermediate into low and high 64-bit words), loop-carried carry threading of multi-limb add/sub, a frozen table of every dropped carry/borrow flag and wrapping operation in ark-ff's big-integer and prime-field code, delegation of big-endian conversions, and guardedness of the recoding's index arithmetic. Agreement with arbitrary-precision arithmetic for all operands (shifts, multiplication, parsing/printing) and that the signed-digit recodings reconstruct the value are NOT decided.",
